@@ -5,6 +5,8 @@ import Proofs.Machine.BodyCombinedText
 import Proofs.Machine.BodyConflict
 import Proofs.Machine.BodyConflictAll
 import Proofs.Machine.IngestRun
+import Proofs.Machine.CombinedSection
+import DeltaModel.HeaderState
 /-!
 C01 — every hunk line is shown exactly once, in order, with its text intact (unified view).
 
@@ -651,5 +653,134 @@ theorem tiny_limit_loses_marker_column :
      | .error _ => []) = [(1, .other, "\x1b[7m→\x1b[0m")] := by decide
 
 end Ingested
+
+-- file sections of a combined diff (session 4, strengthening) --------------------------------------
+
+/-- **`combined_section_stays_combined`** (one input line; every configuration, every machine). In a header state of
+a git diff — in particular `DiffHeader(Combined(..))`, where `diff --cc` / `diff --combined` puts the machine — a line
+that is not a commit line and starts with none of `diff `, `@@`, `old mode `, `new mode `, `Submodule ` (`HeaderLine`)
+leaves the state exactly as it is, and the source too: **no handler of the chain changes the diff type of the file
+section on a header line**. (The `@@@` hunk header that follows takes the number of marker columns of every hunk line
+of the section from this state.) -/
+theorem combined_section_stays_combined {cfg : Cfg} {m m' : M} {l : L} {dt : DiffType} (hst : m.st = .diffHeader dt)
+    (hsrc : m.source = .gitDiff) (hl : HeaderLine l) (e : step cfg m l = .ok m') :
+    m'.st = .diffHeader dt ∧ m'.source = .gitDiff := by
+  obtain ⟨h1, h2⟩ := step_header_line ⟨by rw [hst]; rfl, hsrc⟩ hl e
+  exact ⟨h1.trans hst, h2⟩
+
+/-- … and every line git writes between `diff --cc <path>` and the hunks of a combined-diff section (combine-diff.c:
+`index a,b..c`, `mode a,b..c`, `new file mode m`, `deleted file mode a,b`, `--- …`, `+++ …`, `Binary files differ`) is
+such a line. -/
+theorem combined_section_lines_are_header_lines {l : L} (hc : l.commitRe = false)
+    (hp : startsWithAny l.text combinedHeaderPrefixes = true) : HeaderLine l :=
+  headerLine_of_prefix hc hp
+
+example : HeaderLine (mkL "mode 100644,100644..100755") := headerLine_of_prefix rfl (by decide)
+example : HeaderLine (mkL "deleted file mode 100644,100644") := headerLine_of_prefix rfl (by decide)
+example : HeaderLine (mkL "index 5922773,94235ab..ffad8be") := headerLine_of_prefix rfl (by decide)
+
+/-- **`combined_section_stays_combined_src`** (over the table regenerated from /repo/src,
+`Generated.HeaderState.assignSites`: every `self.state = …` / `handle_additional_cases(…)` of the state machine with
+the marker literals and conditions that guard it). For every prefix a header line of a combined-diff section starts
+with: every assignment such a line can reach — its function is not one guarded by a test of the current state / the
+commit regex, one of its marker literals is compatible with the prefix, no condition excludes git input — leaves a
+header state as it is. A handler branch that matches such a line and assigns `State::DiffHeader(DiffType::Unified)`
+(or anything else) makes this false. -/
+theorem combined_section_stays_combined_src :
+    HeaderState.keepsCombined Generated.HeaderState.assignSites = true := by decide
+
+/-- **`header_state_sites_as_modelled`**: the assignment sites of the source are the ones `DeltaModel/Machine.lean`
+implements (function, guarding literals, conditions, right-hand side; `HeaderState.modelledSites`, each entry names
+the model function) — so `combined_section_stays_combined`, a theorem about the model, is about these sites. -/
+theorem header_state_sites_as_modelled :
+    HeaderState.sitesAsModelled Generated.HeaderState.assignSites = true := by decide +kernel
+
+/-- **`handler_literals_as_modelled`**: the marker literals every handler of the `consume` chain tests a line against
+are the ones the model tests (`Generated.Markers`), handler by handler, in order: no handler has a branch on a literal
+the model does not know. -/
+theorem handler_literals_as_modelled :
+    Generated.HeaderState.handlerLiterals = HeaderState.modelledLiterals := by decide
+
+/-- the decision procedure does detect the seeded shape: one more site in the mode-line handler, guarded by `mode `,
+assigning the unified header state -/
+example : HeaderState.keepsCombined
+    (Generated.HeaderState.assignSites ++
+      [("handle_diff_header_mode_line", [['m', 'o', 'd', 'e', ' ']], ["ifletSome((parent_modes,mode))=line_suf.split_once(\"..\")"],
+        "State::DiffHeader(DiffType::Unified)")]) = false := by decide
+/-- … and the same overwrite in the `Binary files` handler -/
+example : HeaderState.keepsCombined
+    [("handle_diff_header_misc_line", [Generated.Markers.onlyIn, Generated.Markers.binaryFiles], [],
+      "State::DiffHeader(DiffType::Unified)")] = false := by decide
+
+/-- **`combined_section_hunk_diff_type`** (whole runs). Input `pre0 ++ d :: hdr ++ [h]`: after anything (`pre0`; the
+input not taken for plain `diff -u` output) a `diff --cc` / `diff --combined` line `d`, any number of header lines
+`hdr`, and a hunk-header line `h` (starts with `@@`, parses): the machine is in the pending-hunk-header state of a
+combined diff with as many parents as `h` has leading `@`, less one — which is the hypothesis `hdt` of
+`hunk_line_text_intact_combined` for the first line of the hunk. -/
+theorem combined_section_hunk_diff_type {cfg : Cfg} {pre0 hdr : List L} {d h : L} {hh : HunkHeader} {m0 mi : M}
+    (e0 : runFrom cfg {} pre0 = .ok m0) (hsrc0 : m0.source ≠ .diffUnified) (hd : CombinedDiffLine d)
+    (hhdr : ∀ x ∈ hdr, HeaderLine x) (hh' : HunkHeaderLine h hh)
+    (e : runFrom cfg {} (pre0 ++ d :: (hdr ++ [h])) = .ok mi) :
+    mi.source = .gitDiff ∧ hunkDiffType mi.st = some (.combined (.number (atParents h)) false) :=
+  run_combined_section_header e0 hsrc0 hd hhdr hh' e
+
+/-- **`combined_hunk_line_keeps_columns`** (one input line): in a hunk of a combined diff read with `n` marker columns,
+a hunk line that has its `n` columns (ASCII) leaves the machine reading the next line with `n` columns again. -/
+theorem combined_hunk_line_keeps_columns {cfg : Cfg} {m m' : M} {l : L} {n : Nat} (g : Good m) (hsrc : m.source = .gitDiff)
+    (hdt : hunkDiffType m.st = some (.combined (.number n) false)) (hl : CombinedBodyLine n l)
+    (e : step cfg m l = .ok m') :
+    m'.source = .gitDiff ∧ hunkDiffType m'.st = some (.combined (.number n) false) ∧ isHunkHeader m'.st = false :=
+  step_combined_body_line g hsrc hdt hl e
+
+/-- **`combined_section_hunk_line_text_intact`** (whole runs, every configuration). Input
+`pre0 ++ d :: (hdr ++ [h]) ++ tail ++ l :: post`: after anything, a file section of a combined diff — the
+`diff --cc` / `diff --combined` line, header lines (whatever git writes there: index, mode, new / deleted file mode,
+`--- `, `+++ ` …), the hunk-header line `h` with `n + 1` `@`, then `tail`: hunk lines with `n` marker columns and
+further hunk headers of the section. The next possible hunk-body line `l` has exactly one hunk-line row in delta's
+output and it is `expectedRowCombined cfg n l`: kind by its `n` marker columns, the columns kept, the rest of the
+line with tabs expanded (`combined_row_text`). So every hunk line of the section is shown with all its columns
+removed from the text — not only the first. -/
+theorem combined_section_hunk_line_text_intact {cfg : Cfg} {pre0 hdr tail post : List L} {d h l : L} {hh : HunkHeader}
+    {m0 m : M}
+    (hmc : ∀ x ∈ pre0 ++ d :: (hdr ++ [h]) ++ tail ++ l :: post, startsWith x.text Generated.Markers.mcBegin = false)
+    (e0 : runFrom cfg {} pre0 = .ok m0) (hsrc0 : m0.source ≠ .diffUnified) (hd : CombinedDiffLine d)
+    (hhdr : ∀ x ∈ hdr, HeaderLine x) (hh' : HunkHeaderLine h hh) (ht : SectionTail (atParents h) false tail)
+    (hb : HunkBody l) (hsub : l.submodule = none)
+    (e : run cfg (pre0 ++ d :: (hdr ++ [h]) ++ tail ++ l :: post) = .ok m) :
+    (m.out.filter (fun r => isBody r.kind)).filter
+        (fun r => r.src = (pre0 ++ d :: (hdr ++ [h]) ++ tail).length) =
+      [expectedRowCombined cfg (atParents h) l (pre0 ++ d :: (hdr ++ [h]) ++ tail).length] :=
+  run_combined_section_line_row hmc e0 hsrc0 hd hhdr hh' ht hb hsub e
+
+/-- the section of `git show --cc` of a real merge in which the mode of `tool.sh` changed (lines 0–5), its hunk lines -/
+def modeSectionHead : List L :=
+  ["diff --cc tool.sh", "index 5922773,94235ab..ffad8be", "mode 100644,100644..100755", "--- a/tool.sh", "+++ b/tool.sh",
+   "@@@ -1,5 -1,5 +1,6 @@@"].map mkL
+def modeSectionBody : List L := ["  a", "- b", " -B1", "++B1x", "  c"].map mkL
+
+example : CombinedDiffLine (mkL "diff --cc tool.sh") := ⟨rfl, by decide⟩
+example : (parseHunkHeader (mkL "@@@ -1,5 -1,5 +1,6 @@@").text).isSome = true ∧ atParents (mkL "@@@ -1,5 -1,5 +1,6 @@@") = 2 ∧
+    startsWith (mkL "@@@ -1,5 -1,5 +1,6 @@@").text Generated.Markers.hunkHeader = true := by decide
+example : CombinedBodyLine 2 (mkL " -B1") := ⟨⟨rfl, by decide⟩, rfl, by decide, by decide, by decide⟩
+/-- what the theorems say for this input: after the header (mode line included) two columns; every hunk line shown once
+with both columns kept in front and counted for the kind -/
+example : (match runFrom {} {} modeSectionHead with
+    | .ok mi => mi.source == .gitDiff && hunkDiffType mi.st == some (.combined (.number 2) false)
+    | .error _ => false) = true := by decide
+example : (match run {} (modeSectionHead ++ modeSectionBody) with
+    | .ok m => (m.out.filter (fun r => isBody r.kind)).map (fun r => (r.src, r.kind, String.ofList r.text)) ==
+        [(6, .zero, "  a"), (7, .minus, "- b"), (8, .minus, " -B1"), (9, .plus, "++B1x"), (10, .zero, "  c")]
+    | .error _ => false) = true := by decide
+
+/-- the hypothesis `HeaderLine` is needed, and it is exactly the class of defect this guards against: `old mode` /
+`new mode` lines (which git never writes in a combined section) DO overwrite the state with `DiffHeader(Unified)`;
+after them the `@@@` hunk of the section is read as a two-way diff — one column removed, the second kept as text,
+` -B1` (removed from the second parent) shown as an unchanged line. -/
+theorem old_mode_line_in_combined_section_resets_diff_type :
+    (match run {} (["diff --cc tool.sh", "index 5922773,94235ab..ffad8be", "old mode 100644", "new mode 100755",
+                    "--- a/tool.sh", "+++ b/tool.sh", "@@@ -1,5 -1,5 +1,6 @@@"].map mkL ++ modeSectionBody) with
+     | .ok m => (m.out.filter (fun r => isBody r.kind)).map (fun r => (r.src, r.kind, String.ofList r.text))
+     | .error _ => []) =
+      [(7, .zero, " a"), (8, .minus, " b"), (9, .zero, "-B1"), (10, .plus, "+B1x"), (11, .zero, " c")] := by decide
 
 end C01
